@@ -52,7 +52,9 @@ RECURSION = {"compute_log_S", "_sub_compute_S", "compute_log_D", "_convolve_two_
 def _effects(ex, ignored=IGNORED, keep_log_r=False):
     out = []
     for e in ex.events:
-        if e.name in ignored or e.name.startswith(".get_"):
+        if e.name == ".update" and e.args:
+            pass  # dict.update(mapping): an effect (only the argument-less Tree.update() is a refresh)
+        elif e.name in ignored or e.name.startswith(".get_"):
             continue
         if e.name == "store_attr" and isinstance(e.kwargs.get("attr"), str) and e.kwargs["attr"].startswith("__"):
             continue
